@@ -84,6 +84,16 @@ E.HOOKS["getattr"].append(_arr_getattr)
 
 def seq_id(v):
     sid = getattr(v, "sid", None)
+    if sid is None and isinstance(v, VList) and isinstance(v.content, SymSeq):
+        # a derived sequence of scalars (e.g. a comprehension over a named sequence): identified by its defining expression
+        try:
+            probe = v.content.at(z3.Int("k!canon"))
+            if isinstance(probe, (VInt, VReal, VStr, VBool)):
+                import hashlib
+                sid = "derived:" + hashlib.sha1((z3.simplify(probe.term).sexpr() + "|" + z3.simplify(v.content.length).sexpr()).encode()).hexdigest()[:12]
+                v.sid = sid
+        except Unsupported:
+            sid = None
     if sid is None:
         raise Unsupported("sequence without identity (needed for coinc / cross)")
     return sid
@@ -156,6 +166,12 @@ def np_unique(interp, args, kwargs, node):
     nu = z3.Int(f"nuniq[{sid}]")
     ctx.assume(z3.And(nu >= 0, nu <= n, z3.Implies(n > 0, nu >= 1)), "extern:numpy.unique (sorted distinct values)")
     ek = arr.content.elem_kind
+    if ek is None:
+        try:
+            probe = arr.content.at(z3.Int("k!canon"))
+            ek = types_IntT(np=True) if isinstance(probe, VInt) else vec.T_RealT(np=True) if isinstance(probe, VReal) else None
+        except Unsupported:
+            ek = None
     if ek is None:
         vals = VObj("ndarray", ctx.fresh(f"uniq_{sid}", OBJ))
     else:
